@@ -372,7 +372,7 @@ def check_case(case):
 BOUNDARY_INTS = [2 ** 53 - 1, 2 ** 53, 2 ** 53 + 1, -2 ** 53, -2 ** 53 - 1, 2 ** 63, 2 ** 64, 2 ** 31, 10 ** 21, 999999999]
 custom_value = st.one_of(V.mixed_text(2), st.integers(-10, 2 ** 60), st.sampled_from(BOUNDARY_INTS), V.any_finite_float.filter(lambda f: abs(f) < 1e300), st.booleans(),
                          st.lists(st.one_of(st.integers(0, 5), st.sampled_from(BOUNDARY_INTS)), min_size=1, max_size=3),
-                         st.dictionaries(st.sampled_from(["a", "b_c", "Z"]), st.one_of(st.integers(0, 9), st.sampled_from(BOUNDARY_INTS), st.lists(st.sampled_from(BOUNDARY_INTS), min_size=1, max_size=2)),
+                         st.dictionaries(st.sampled_from(["a", "b_c", "Z", "0", "10", "2", "\u00b2", "\u0663", "x\u00b2"]), st.one_of(st.integers(0, 9), st.sampled_from(BOUNDARY_INTS), st.lists(st.sampled_from(BOUNDARY_INTS), min_size=1, max_size=2)),
                                          min_size=1, max_size=2))
 FREE_DICTS_TOP = ["additional_header_fields", "environment_variables", "ipfix"]
 custom_name = st.sampled_from(["x_foo", "x_bar", "a_custom", "zzz", "x_0", "foo_bar", "x_name", "name_suffix"])
